@@ -447,7 +447,79 @@ func runPrepared(text string, files map[string][]byte, beh map[string]Behaviour,
 	run.GDelta = goroutineDelta(base)
 }
 
-var raceScenarios = []string{"engine", "engine-cancel", "overlap", "foreach", "stopif", "foreach-cancel", "overlap-cancel", "stopif-cancel"}
+var raceScenarios = []string{"engine", "engine-cancel", "overlap", "foreach", "stopif", "foreach-cancel", "overlap-cancel", "stopif-cancel",
+	"overlap-after-run"}
+
+// raceOverlapAfterRun: a generated input schema with optional nested objects (inline or through references, own properties
+// with and without defaults); ONE prepared workflow; a completed first run whose document leaves out everything that may
+// be left out, then k overlapping runs whose documents give every nested object (and leave out what may be left out inside
+// them), optionally preceded by a refused document.  What the first run initialised lazily in shared objects (schemas)
+// differs from what the overlapping runs touch.
+func raceOverlapAfterRun(cr *rng, run *raceRun) {
+	g := &inputGen{r: cr}
+	root, badName := genInputRoot(cr, g)
+	if len(root.Props) > 0 {
+		root.Props = append(root.Props, seqNestedProp(g, "nest"))
+		if cr.chance(1, 2) {
+			root.Props = append(root.Props, seqNestedProp(g, "nest2"))
+		}
+	}
+	steps := genInputSteps(cr, root)
+	text := inputWorkflowYAML(root, steps)
+	first := seqValidDoc(g, root, badName, "min")
+	later := seqValidDoc(g, root, badName, "objs")
+	invalid := seqInvalidDocs(g, root, badName, 1)
+	s := newScript()
+	currentScript.Store(s)
+	base := runtime.NumGoroutine()
+	reg, f, err := newRegistry(nil)
+	if err != nil {
+		run.Skip = "registry: " + err.Error()
+		return
+	}
+	s.probe.Store(true)
+	prepared, err := prepareYAML(reg, f, text, nil)
+	s.probe.Store(false)
+	if err != nil {
+		run.Skip = "prepare: " + err.Error()
+		return
+	}
+	t0 := time.Now()
+	toLoop := func(r seqResult, hung bool) loopResult {
+		return loopResult{Returned: !hung, OutputID: r.OutputID, Data: r.Data, Err: r.Err, ErrClass: r.ErrClass}
+	}
+	r0, h0 := seqExecute(prepared, first.raw, -1)
+	run.Results = append(run.Results, toLoop(r0, h0))
+	if h0 {
+		return
+	}
+	if len(invalid) > 0 && cr.chance(1, 2) {
+		ri, hi := seqExecute(prepared, invalid[0].raw, -1)
+		run.Results = append(run.Results, toLoop(ri, hi))
+		if hi {
+			return
+		}
+	}
+	k := 2 + cr.intn(3)
+	results := make([]loopResult, k)
+	gate := make(chan struct{})
+	var wg sync.WaitGroup
+	for i := 0; i < k; i++ {
+		wg.Add(1)
+		go func(i int) {
+			defer wg.Done()
+			<-gate
+			r, h := seqExecute(prepared, later.raw, -1)
+			results[i] = toLoop(r, h)
+		}(i)
+	}
+	close(gate)
+	wg.Wait()
+	run.Results = append(run.Results, results...)
+	run.WallMs = time.Since(t0).Milliseconds()
+	run.GDelta = goroutineDelta(base)
+	run.Extra = map[string]any{"workflow_yaml": text, "first": encVal(first.raw), "overlapping": encVal(later.raw), "calls": k}
+}
 
 func raceWorkload(c *common, w *lineWriter, prepareOverlap bool, only string) {
 	r := newRng(c.seed)
@@ -541,6 +613,8 @@ func raceWorkload(c *common, w *lineWriter, prepareOverlap bool, only string) {
 			}
 			runPrepared(text, map[string][]byte{"sub.yaml": []byte(raceForeachSub)}, beh, input, 1, cancels, &run)
 			run.Extra = map[string]any{"items": n, "parallelism": par, "cancel_ms": cancels}
+		case "overlap-after-run":
+			raceOverlapAfterRun(cr, &run)
 		case "stopif", "stopif-cancel":
 			variant := cr.intn(3)
 			bDelay := 3 + cr.intn(12)
